@@ -13,68 +13,20 @@ at any step, and **all schedules**. Helper lemmas: `Lemmas/ExitRace*.lean`.
 namespace C06
 open ExitRace
 
-/-- the other `set_status` callers publish values below `Stopping` (`Starting`, `Running`; this is
-what the code base does — only the actor's own task publishes `Stopping`/`Stopped`) -/
-def settersOk (setters : List (List Nat)) : Bool := setters.all (·.all (· < stStopping))
-
-theorem inv_init (post : Bool) (late : List Nat) (setters : List (List Nat)) (n : Nat)
-    (h : settersOk setters = true) : Inv (init post late setters n) := by
-  refine ⟨by simp [init, EPc.valid], ?_, ?_, ?_⟩
-  · constructor <;> simp [init, EPc.stage, stStopping, stStopped]
-  · intro w hw
-    simp only [init, List.mem_replicate] at hw
-    obtain ⟨_, rfl⟩ := hw
-    constructor <;> simp [init, EPc.stage, Waiter.parked]
-  · simp only [settersBelowStopping, init, List.all_map]
-    simp only [settersOk] at h
-    rw [List.all_eq_true] at h ⊢
-    intro l hl
-    simp [Function.comp, h l hl]
-
 /-- (safety) A waiter that has returned recorded `ok = true` at its return (status was `Stopped`
 and every cleanup step preceding `publish(Stopped)` was done: pid and name unregistered, group
 monitors and memberships gone, children terminated, supervisor notified, unlinked, `post_stop`
 returned on a graceful exit) — and this is still true in the current state, so the snapshot it
-takes afterwards shows a fully stopped actor. -/
-theorem waiter_returns_only_after_full_stop (post : Bool) (late : List Nat)
-    (setters : List (List Nat)) (n : Nat) (hs : settersOk setters = true) (sched : List Tid) :
-    ∀ w ∈ (run (init post late setters n) sched).waiters, ∀ ok, w.pc = .returned ok →
-      ok = true ∧ (run (init post late setters n) sched).sh.status = stStopped ∧
-      (run (init post late setters n) sched).sh.flags.complete post = true := by
+takes afterwards shows a fully stopped actor. For any number of waiters, any schedule. -/
+theorem waiter_returns_only_after_full_stop (g0 : G) (h0 : Initial g0) (sched : List Tid) :
+    ∀ w ∈ (run g0 sched).waiters, ∀ ok, w.pc = .returned ok →
+      ok = true ∧ (run g0 sched).sh.status = stStopped ∧
+      (run g0 sched).sh.flags.complete g0.exiter.hasPostStop = true := by
   intro w hw ok hok
-  have I := inv_run _ sched (inv_init post late setters n hs)
-  have hp : (run (init post late setters n) sched).exiter.hasPostStop = post := by
-    have : ∀ (g : G) (l : List Tid), (run g l).exiter.hasPostStop = g.exiter.hasPostStop := by
-      intro g l
-      induction l generalizing g with
-      | nil => rfl
-      | cons t l ih =>
-        simp only [run, List.foldl_cons] at ih ⊢
-        rw [ih]
-        cases t with
-        | e =>
-          obtain ⟨sh, ex, st, ws⟩ := g
-          obtain ⟨pc, p, lc⟩ := ex
-          simp only [step]
-          cases pc <;> simp only [stepExiter] <;>
-            first
-            | rfl
-            | (rename_i c; generalize stepSet sh ws c = r; obtain ⟨a, b, c'⟩ := r; cases c' <;> rfl)
-            | (rename_i c rest; generalize stepSet sh ws c = r; obtain ⟨a, b, c'⟩ := r; cases c' <;> rfl)
-        | s k => simp only [step]; split <;> rfl
-        | w k => simp only [step]; split <;> rfl
-        | abandon k =>
-          simp only [step]
-          split
-          · rfl
-          · split
-            · rfl
-            · rfl
-            · split <;> rfl
-    exact this _ _
+  have I := inv_run _ sched (inv_initial g0 h0)
   obtain ⟨h1, h12⟩ := (I.ws w hw).ret ok hok
   have hok' := okNow_of_stage I h12
-  simp only [okNow, Bool.and_eq_true, beq_iff_eq, hp] at hok'
+  simp only [okNow, Bool.and_eq_true, beq_iff_eq, hasPostStop_run] at hok'
   exact ⟨h1, hok'.1, hok'.2⟩
 
 /-- What `ok` records: a waiter that returns in this step stores `okNow g`, the observation of the
@@ -87,32 +39,21 @@ theorem return_records_current_state (sh : Sh) (fl : Bool) (w : Waiter) (ok : Bo
 /-- (no lost wake-up, enabledness) Once the exiter has finished, a step of any waiter that has not
 returned — whether it started before, during or after the exit — makes progress: no waiter is
 ever left blocked. -/
-theorem no_lost_wakeup_progress (post : Bool) (late : List Nat) (setters : List (List Nat)) (n : Nat)
-    (hs : settersOk setters = true) (sched : List Tid) (i : Nat)
-    (hf : (run (init post late setters n) sched).exiter.finished = true)
-    (hr : 0 < remaining (run (init post late setters n) sched) i) :
-    remaining (step (run (init post late setters n) sched) (.w i)) i
-      < remaining (run (init post late setters n) sched) i :=
-  waiter_progress _ i (inv_run _ sched (inv_init post late setters n hs)) hf hr
+theorem no_lost_wakeup_progress (g0 : G) (h0 : Initial g0) (sched : List Tid) (i : Nat)
+    (hf : (run g0 sched).exiter.finished = true) (hr : 0 < remaining (run g0 sched) i) :
+    remaining (step (run g0 sched) (.w i)) i < remaining (run g0 sched) i :=
+  waiter_progress _ i (inv_run _ sched (inv_initial g0 h0)) hf hr
 
 /-- (no lost wake-up, fairness form) After the exiter has finished, every waiter that is scheduled
 three more times — whatever else runs in between — and is not abandoned has returned. -/
-theorem no_lost_wakeup (post : Bool) (late : List Nat) (setters : List (List Nat)) (n : Nat)
-    (hs : settersOk setters = true) (sched more : List Tid) (i : Nat) (hi : i < n)
-    (hf : (run (init post late setters n) sched).exiter.finished = true)
-    (ha : isAbandoned (run (init post late setters n) sched) i = false)
+theorem no_lost_wakeup (g0 : G) (h0 : Initial g0) (sched more : List Tid) (i : Nat)
+    (hi : i < g0.waiters.length) (hf : (run g0 sched).exiter.finished = true)
+    (ha : isAbandoned (run g0 sched) i = false)
     (hcount : 3 ≤ more.count (.w i)) (hna : Tid.abandon i ∉ more) :
-    isReturned (run (run (init post late setters n) sched) more) i = true := by
-  have I := inv_run _ sched (inv_init post late setters n hs)
-  have hlen : (run (init post late setters n) sched).waiters.length = n := by
-    have : ∀ (g : G) (l : List Tid), (run g l).waiters.length = g.waiters.length := by
-      intro g l
-      induction l generalizing g with
-      | nil => rfl
-      | cons t l ih => simp only [run, List.foldl_cons] at ih ⊢; rw [ih, length_step]
-    rw [this]; simp [init]
-  refine returns_when_scheduled _ i more I hf (by omega) ha ?_ hna
-  have : remaining (run (init post late setters n) sched) i ≤ 3 := by
+    isReturned (run (run g0 sched) more) i = true := by
+  have I := inv_run _ sched (inv_initial g0 h0)
+  refine returns_when_scheduled _ i more I hf (by rw [length_run]; exact hi) ha ?_ hna
+  have : remaining (run g0 sched) i ≤ 3 := by
     unfold remaining
     split
     · rename_i pc _; cases pc <;> simp [WPc.rank]
@@ -126,13 +67,14 @@ theorem status_monotone (g : G) (sched : List Tid) (h : OnceInv g.sh) :
 
 /-- (once) The cleanup block and the notify block of `set_status` are each elected at most once,
 whatever `set_status` calls are made by whichever threads (any values, any interleaving). -/
-theorem cleanup_elected_once (post : Bool) (late : List Nat) (setters : List (List Nat)) (n : Nat)
+theorem cleanup_elected_once (g0 : G) (h0 : g0.sh.cleanupRuns = 0 ∧ g0.sh.notifyRuns = 0)
     (sched : List Tid) :
-    (run (init post late setters n) sched).sh.cleanupRuns ≤ 1 ∧
-    (run (init post late setters n) sched).sh.notifyRuns ≤ 1 := by
-  have h0 : OnceInv (init post late setters n).sh := by
-    constructor <;> simp [init, stStopping, stStopped]
-  have := (run_once _ sched h0).1
+    (run g0 sched).sh.cleanupRuns ≤ 1 ∧ (run g0 sched).sh.notifyRuns ≤ 1 := by
+  have hi : OnceInv g0.sh := by
+    constructor
+    · rw [h0.1]; exact Nat.zero_le _
+    · rw [h0.2]; exact Nat.zero_le _
+  have := (run_once _ sched hi).1
   have h1 := this.cleanup
   have h2 := this.notify
   constructor
@@ -199,9 +141,16 @@ example : (run (init true [] [[1, 2]] 3) [.w 0, .w 0]).waiters.map (·.pc) = [.r
 example : (run (init false [6] [] 2) ([.w 0, .w 0, .abandon 0] ++ List.replicate 20 .e ++ [.w 1, .w 1])).waiters.map (·.pc)
     = [.abandoned, .returned true] := by decide
 
+/-- the hypotheses of the theorems also cover an exit after `drain()` (status `Draining`) and after
+a kill signal (children already terminated) -/
+example : Initial { (init false [] [] 2) with sh := { status := 4, flags := { terminated := true } } } := by
+  refine ⟨rfl, by decide, rfl, rfl, ⟨rfl, rfl⟩, ?_, rfl⟩
+  intro w hw
+  simp only [init, List.mem_replicate] at hw
+  exact hw.2
+
 end C06
 
-#print axioms C06.inv_init
 #print axioms C06.waiter_returns_only_after_full_stop
 #print axioms C06.return_records_current_state
 #print axioms C06.no_lost_wakeup_progress
